@@ -1,7 +1,7 @@
 (** C12: login throttling stops guessing; sessions are valid only until expiry
     or logout.  Only statements here; proofs live in Proofs/RateLimit.v and
     Proofs/Session.v. *)
-From AGH Require Import Base.Run Model.RateLimit Model.Session Proofs.RateLimit Proofs.Session.
+From AGH Require Import Base.Run Model.RateLimit Model.Session Proofs.RateLimit Proofs.Session Proofs.AuthPins Gen.AuthPins.
 From stdpp Require Import gmap.
 Local Open Scope Z_scope.
 
@@ -41,9 +41,9 @@ Print Assumptions C12_block_after_limit.
 Example C12_block_premises_satisfiable :
   let c := {| rl_ttl := sec 60; rl_block := sec 900; rl_max := 3 |} in
   let a := sliding_addr in
-  let f t := {| a_now := sec t; a_now2 := sec t; a_addr := a; a_ok := false |} in
-  let o := {| a_now := sec 5; a_now2 := sec 5; a_addr := [120]%N; a_ok := false |} in
-  let x := {| a_now := sec 919; a_now2 := sec 919; a_addr := a; a_ok := true |} in
+  let f t := {| a_now := sec t; a_now2 := sec t; a_addr := a; a_hdr := Some [49;50;55;46;48;46;48;46;49]%N; a_trusted := true; a_ok := false |} in
+  let o := {| a_now := sec 5; a_now2 := sec 5; a_addr := [120]%N; a_hdr := None; a_trusted := false; a_ok := false |} in
+  let x := {| a_now := sec 919; a_now2 := sec 919; a_addr := a; a_hdr := Some [49;48;46;48;46;48;46;57]%N; a_trusted := true; a_ok := true |} in
   wf_from 0 ([f 0; o; f 10; f 20] ++ [] ++ [x]) /\
   burst a (N.to_nat (rl_max c)) [f 0; o; f 10; f 20] (f 20) /\
   ~ live (sec 0) ∅ a /\
@@ -52,6 +52,36 @@ Example C12_block_premises_satisfiable :
   snd (run_logins c ∅ [f 0; o; f 10; f 20; x]) = [L403; L403; L403; L403; L429 (sec 1)].
 Proof. exact block_premises_satisfiable. Qed.
 Print Assumptions C12_block_premises_satisfiable.
+
+(** An attempt [att] carries, besides the peer address [a_addr], what the
+    request claims in proxy headers ([a_hdr]) and whether trusted_proxies
+    accepts the claim ([a_trusted]); the theorem above holds for every choice
+    of these by the sender.  Directly: decisions and table are a function of
+    the peer addresses alone. *)
+Theorem C12_headers_irrelevant : forall c h h', Forall2 same_but_headers h h' ->
+  forall s, run_logins c s h = run_logins c s h'.
+Proof. exact run_logins_ignores_headers. Qed.
+Print Assumptions C12_headers_irrelevant.
+
+(** [login] is [login_with UsePeer UsePeer]; the source still says so. *)
+Theorem C12_limiter_keys_code :
+  login_check_key = Some UsePeer /\ login_count_key = Some UsePeer.
+Proof. exact limiter_keys_are_peer. Qed.
+Print Assumptions C12_limiter_keys_code.
+
+(** Any other choice breaks the property: counting under the logged address
+    (a fixed X-Real-IP inside trusted_proxies), or checking and counting
+    under it (a rotating one), on a history where the code answers 429 from
+    the fourth attempt on. *)
+Example C12_key_mismatch_refuted :
+  wf_from 0 spoof_fixed /\
+  burst sliding_addr 3 (firstn 3 spoof_fixed) (spoof_att 2) /\
+  snd (run_logins sliding_conf ∅ spoof_fixed) = [L403; L403; L403; L429 (sec 899); L429 (sec 898); L429 (sec 897)] /\
+  snd (run_logins_with UsePeer UseLog sliding_conf ∅ spoof_fixed) = [L403; L403; L403; L403; L403; L403] /\
+  snd (run_logins sliding_conf ∅ spoof_rotating) = [L403; L403; L403; L429 (sec 899); L429 (sec 898); L429 (sec 897)] /\
+  snd (run_logins_with UseLog UseLog sliding_conf ∅ spoof_rotating) = [L403; L403; L403; L403; L403; L403].
+Proof. exact key_mismatch_refuted. Qed.
+Print Assumptions C12_key_mismatch_refuted.
 
 (** A successful login that is evaluated removes the record: the next failure
     of that address opens a new one. *)
